@@ -96,6 +96,23 @@ func scenario(c cfg) *mcx.Scenario {
 						err = w.CC.Ping(ctx)
 					case "write-con":
 						err = w.CC.WriteMessage(w.Request(ctx, codes.POST, "/a", message.Token{0xD1}, message.Confirmable, []byte("one-way")))
+					case "do-con-after-failed-requests":
+						// earlier requests on this connection ended with errors before anything was written (a body that
+						// cannot be read, an injected write error): they must not leave anything behind that blocks this one
+						bad := w.Request(ctx, codes.POST, "/bad", message.Token{0xD3}, message.Confirmable, nil)
+						bad.SetContentFormat(message.TextPlain)
+						bad.SetBody(&unreadable{size: 8})
+						_, _ = w.CC.Do(bad)
+						failing := true
+						w.Sess.WriteErr = func(*pool.Message) error {
+							if failing {
+								return fmt.Errorf("sendmsg: no buffer space available")
+							}
+							return nil
+						}
+						_, _ = w.CC.Do(w.Request(ctx, codes.GET, "/werr", message.Token{0xD4}, message.Confirmable, nil))
+						failing = false
+						_, err = w.CC.Do(w.Request(ctx, codes.GET, "/a", message.Token{0xD1}, message.Confirmable, nil))
 					case "queued":
 						vrt.WaitUntil("op waits until the slot is taken", func() bool { return len(w.Outs) > 0 || occupierDone })
 						_, err = w.CC.Do(w.Request(ctx, codes.GET, "/q", message.Token{0xD2}, message.NonConfirmable, nil))
@@ -178,10 +195,28 @@ func scenario(c cfg) *mcx.Scenario {
 	}
 }
 
+// unreadable: a body whose size can be determined (Seek works) but whose bytes cannot be read.
+type unreadable struct {
+	size, pos int64
+}
+
+func (u *unreadable) Read([]byte) (int, error) { return 0, fmt.Errorf("read: input/output error") }
+func (u *unreadable) Seek(off int64, whence int) (int64, error) {
+	switch whence {
+	case 0:
+		u.pos = off
+	case 1:
+		u.pos += off
+	case 2:
+		u.pos = u.size + off
+	}
+	return u.pos, nil
+}
+
 func main() {
 	r := ev.Start("C09", "model_checking")
 	var scs []*mcx.Scenario
-	ops := []string{"do-con", "do-non", "do-block", "observe", "observe-cancel", "ping", "write-con", "queued"}
+	ops := []string{"do-con", "do-non", "do-block", "observe", "observe-cancel", "ping", "write-con", "queued", "do-con-after-failed-requests"}
 	for _, op := range ops {
 		for _, in := range []string{"cancel", "deadline", "close"} {
 			for _, peer := range []string{"silent", "ackonly", "garbage"} {
